@@ -579,10 +579,17 @@ def correspondence(ctx):
                                                   "captured": {k: len(r.get(k, [])) for k in ("redist", "minneeds", "bump")},
                                                   "round2_skipped": (r.get("second") or {}).get("skipped")}
                                                  for r in real]}
-    for c, r in meta[:2]:
-        ctx.sample({"helper": c["kind"], "mode": c.get("mode"), "inputs": {k: v for k, v in c.items()
-                                                                          if k in ("arr", "r1", "r2")} or "(see corpus)",
-                    "observed": (r.get("out") if c["kind"] != "minneeds" else "dict of 9 series")})
+    seen_kinds = set()
+    for c, r in sorted(meta, key=lambda cr: len(json.dumps(hexed(cr[0])))):
+        if c["kind"] in seen_kinds or not nontrivial(c, r):
+            continue
+        seen_kinds.add(c["kind"])
+        inputs = {k: v for k, v in c.items() if k in ("arr", "r1", "r2", "b", "f", "inc", "maxb", "maxf", "avail", "K", "T",
+                                                      "pf", "N", "series")}
+        obs = {k: (unhex(v) if k in ("out", "b", "f") and not isinstance(v, dict) and v is not None else
+                   ({kk: unhex(vv) for kk, vv in v.items()} if isinstance(v, dict) else v))
+               for k, v in r.items() if k in ("out", "b", "f")}
+        ctx.sample({"helper": c["kind"], "mode": c.get("mode"), "inputs": inputs, "observed": obs, "agrees_with_model": True})
     ctx.traces += sum(1 for c, _ in meta if c.get("mode") == "real")
     for r in real:
         if r.get("err"):
